@@ -482,7 +482,7 @@ func (e *envoy) applyDelta(s *stream, resp *discovery.DeltaDiscoveryResponse) {
 	if e.held[typ] == nil {
 		e.held[typ] = map[string]resEntry{}
 	}
-	wildcard := typ == "CDS" || typ == "LDS" || typ == "NDS" || typ == "WDS" // a ztunnel takes whatever WDS resource it is sent
+	wildcard := typ == "CDS" || typ == "LDS" || typ == "NDS" || typ == "WDS" || typ == "WADS" // a ztunnel takes whatever WDS / WADS resource it is sent
 	want := map[string]bool{}
 	for _, n := range e.subs[typ] {
 		want[n] = true
